@@ -266,8 +266,9 @@ func (e *evDouble) OnContextAugment(chid datatransfer.ChannelID) func(context.Co
 // ----- graphsync double -----
 type gsDouble struct {
 	*testharness.FakeGraphSync
-	r      *trRig
-	stores map[string]bool // registered persistence options (as real graphsync keeps them)
+	r            *trRig
+	stores       map[string]bool // registered persistence options (as real graphsync keeps them)
+	beforeCancel func(graphsync.RequestID)
 }
 
 func extMap(exts []graphsync.ExtensionData) map[graphsync.ExtensionName]datamodel.Node {
@@ -357,6 +358,15 @@ func (g *gsDouble) finish(tok uint64, err error) {
 
 func (g *gsDouble) Cancel(ctx context.Context, id graphsync.RequestID) error {
 	tok := g.r.tokOfRid(id)
+	// graphsync's response manager is one goroutine: it answers Cancel only after the callbacks it is
+	// running have returned.  beforeCancel lets a scenario run such a callback at exactly that point.
+	g.r.mu.Lock()
+	hook := g.beforeCancel
+	g.beforeCancel = nil
+	g.r.mu.Unlock()
+	if hook != nil {
+		hook(id)
+	}
 	g.record(gsCmd{Kind: "GCancel", Rid: tok})
 	g.finish(tok, graphsync.RequestClientCancelledErr{})
 	return nil
